@@ -346,6 +346,26 @@ func c11(c *Ctx) {
 		}
 		n++
 		r.Add("STRUCT.const", "codecs.(*VP8Payloader).Payload", "7-bit picture id form exactly below 128", p.Position(fn.Pos()), ok, "comparisons of pictureID with constants: "+stringsJoin(seen))
+		// the picture id octets (RFC 7741 4.2): M=0 + 7 bits; M=1 + bits 14..8, then bits 7..0. The values are looked
+		// for among everything the payloader (and the helpers it was split into) computes.
+		ms := []*bits.Machine{m}
+		for _, h := range newHelpers(fn) {
+			ms = append(ms, bits.Run(p, h))
+		}
+		for _, row := range [][2]string{
+			{"7-bit form: octet = 0 pictureID.6-0", "0 recv.pictureID.6-0"},
+			{"15-bit form: first octet = 1 pictureID.14-8", "1 recv.pictureID.14-8"},
+			{"15-bit form: second octet = pictureID.7-0", "recv.pictureID.7-0"},
+		} {
+			found := false
+			for _, mm := range ms {
+				if hasValue(mm, row[1]) {
+					found = true
+				}
+			}
+			n++
+			addOrUndecided(c, "BITS.frag", "codecs.(*VP8Payloader).Payload", "picture id "+row[0], p.Position(fn.Pos()), found, "no value computed by the payloader is "+row[1], fn)
+		}
 		// wrap mask 0x7FFF on the incremented id
 		okw := false
 		for _, st := range m.Stores {
@@ -469,6 +489,7 @@ func c12(c *Ctx) {
 		}
 	}
 	boundsFor(c, "C12", entries)
+	vp9FieldOrder(c)
 	accFreshFor(c, 4, "codecs/vp9_packet.go", "codecs/vp9/")
 	c.R.Infof("CTR.copyfill: %d tail cop(ies) into a per-fragment buffer checked", c.copyFillSeen)
 }
@@ -498,4 +519,52 @@ func replaceWord(s, old, new string) string {
 		i++
 	}
 	return out
+}
+
+// vp9FieldOrder: the optional parts of the VP9 payload descriptor are decoded in wire order (VP9 RTP payload
+// format 4.2): picture id, layer indices, reference indices (P_DIFF), scalability structure. Each part is
+// decoded by a helper of VP9Packet; on every path the call of an earlier part is not reachable from the call
+// of a later one. Helpers that no longer exist under these names are not looked for (not decided).
+func vp9FieldOrder(c *Ctx) {
+	p, r := c.Prog, c.R
+	fn := p.Func("codecs.(*VP9Packet).Unmarshal")
+	if fn == nil {
+		return
+	}
+	order := []string{"parsePictureID", "parseLayerInfo", "parseRefIndices", "parseSSData"}
+	at := map[string]*ssa.Call{}
+	for _, b := range fn.Blocks {
+		for _, in := range b.Instrs {
+			if call, ok := in.(*ssa.Call); ok {
+				if g := call.Call.StaticCallee(); g != nil {
+					for _, nm := range order {
+						if g.Name() == nm {
+							at[nm] = call
+						}
+					}
+				}
+			}
+		}
+	}
+	var present []string
+	for _, nm := range order {
+		if at[nm] != nil {
+			present = append(present, nm)
+		}
+	}
+	if len(present) < 2 {
+		r.Infof("STRUCT.order: fewer than two of the descriptor part decoders are called from VP9Packet.Unmarshal under their pinned names: not decided")
+		return
+	}
+	for i := 0; i+1 < len(present); i++ {
+		a, b := at[present[i]], at[present[i+1]]
+		ok := true
+		if a.Block() == b.Block() {
+			ok = core.Precedes(a, b)
+		} else if core.Reachable(b.Block())[a.Block()] {
+			ok = false
+		}
+		r.Add("STRUCT.order", "codecs.(*VP9Packet).Unmarshal", present[i]+" is decoded before "+present[i+1]+" (wire order of the descriptor)", p.Position(a.Pos()), ok,
+			"the call of "+present[i]+" can run after the call of "+present[i+1])
+	}
 }
